@@ -8,6 +8,7 @@ import (
 	"encoding/json"
 	"fmt"
 	"os"
+	"verif/sim/sched"
 )
 
 // Config is the per-run ("swarm") configuration. It is derived from the seed
@@ -91,6 +92,7 @@ type Replay struct {
 	Golden    string     `json:"golden,omitempty"`    // C09: path of a golden directory that no longer reads back identically
 	FromSeed  bool       `json:"from_seed,omitempty"` // re-execute the seed (no recorded tape: the run never ended)
 	Note      string     `json:"note,omitempty"`
+	Race      bool       `json:"race,omitempty"` // the violation is a race-detector report: replay re-executes the seed under the race build (bin/walsim-race)
 }
 
 func (r *Replay) Write(path string) error {
@@ -119,7 +121,7 @@ type Counters map[string]int64
 
 // CountersOff disables counting (edge-free race builds: Go maps carry race
 // hooks inside the runtime, and the counter bags are shared by all tasks).
-var CountersOff bool
+var CountersOff = sched.EdgeFree
 
 func (c Counters) Add(k string, n int64) {
 	if CountersOff {
